@@ -62,7 +62,7 @@ def r1(ctx):
                         "`%s`, not against %s.getDefault()" % (holder, text(d), holder))
     ctx.floor("C12.R1", n, 4, "Payload.isEmpty decision sites")
     f = ctx.method("Payload", "isEmpty")
-    src = " ".join(text(s) for s in f.body).replace(" ", "")
+    src = "\n".join(text(s) for s in f.body).replace(" ", "")
     fib = "returnp.isEmpty()" in src
     leaf = False
     for n_ in f.own_nodes():
